@@ -163,6 +163,8 @@ type pkPools struct {
 	i64s   []pkArg
 	u64s   []pkArg
 	i16s   []pkArg
+	// request ids built by the stream with the real GenerateRequestID: the (context, batch) they were built from
+	reqOrigin map[string]kmReqOrigin
 }
 
 func (p *pkPools) randBytes(n int) []byte {
@@ -172,13 +174,13 @@ func (p *pkPools) randBytes(n int) []byte {
 }
 
 func pkBuildPools(rng *rand.Rand, n int) *pkPools {
-	p := &pkPools{rng: rng}
+	p := &pkPools{rng: rng, reqOrigin: map[string]kmReqOrigin{}}
 	by := func(k pkKind, b []byte) pkArg { return pkArg{k: k, b: b} }
 
 	// service names: prefixes of one another, the separators of the name syntax, a long one,
 	// and (for the translation only; the theorems exclude them) names containing 0x00 / 0xff
 	for _, s := range []string{"", "a", "ab", "abc", "svc", "svc-1", "svc-10", "svc_1", "A", "Ab", "b",
-		strings.Repeat("x", 70), "a\x00b", "\x00", "a\x00", "\xff\xfe", "stake"} {
+		strings.Repeat("x", 70), "a\x00b", "\x00", "a\x00", "\xff\xfe", "stake", "bc"} {
 		p.names = append(p.names, by(pkName, []byte(s)))
 	}
 	for _, s := range []string{"", "s", "stake", "stakes", "take", "iris", "a\x00"} {
@@ -207,6 +209,14 @@ func pkBuildPools(rng *rand.Rand, n int) *pkPools {
 	for i := 0; i < 4; i++ {
 		p.addrs = append(p.addrs, by(pkAddr, p.randBytes(20)))
 	}
+	// crafted for the key monitor (mon_keys.go): bech32 extensions (the TEXT of P' starts with the whole text of P)
+	// of three 20-byte addresses of the pool, and a 20-byte address that contains the separator bytes
+	for _, a := range [][]byte{base[:20], chain2[:20], p.addrs[len(p.addrs)-1].b} {
+		if e := kmBechExtend(a); e != nil {
+			p.addrs = append(p.addrs, by(pkAddr, e))
+		}
+	}
+	p.addrs = append(p.addrs, by(pkAddr, []byte("\x00a\x00bcosmos1\x00\x00\xff\xffzzzzz")))
 	// dedupe addresses
 	seen := map[string]bool{}
 	var as []pkArg
@@ -262,7 +272,11 @@ func pkBuildPools(rng *rand.Rand, n int) *pkPools {
 		for _, bc := range []uint64{0, 1, 256, math.MaxUint64} {
 			for _, ht := range []int64{1, -1, math.MaxInt64} {
 				for _, ix := range []int16{0, 1, -1, math.MinInt16} {
-					p.reqs = append(p.reqs, by(pkBytes, types.GenerateRequestID(pkCopy(c.b), bc, ht, ix)))
+					id := types.GenerateRequestID(pkCopy(c.b), bc, ht, ix)
+					p.reqs = append(p.reqs, by(pkBytes, id))
+					if _, dup := p.reqOrigin[string(id)]; !dup {
+						p.reqOrigin[string(id)] = kmReqOrigin{c.b, bc}
+					}
 				}
 			}
 		}
@@ -351,10 +365,16 @@ func (p *pkPools) random(k pkKind, override string) pkArg {
 
 const pkFullProductCap = 6000
 
-func runPureKeys(out *bufio.Writer, seed int64, n int) (cases int) {
+func runPureKeys(out *bufio.Writer, seed int64, n int) (cases int, mon *KeyMonSummary) {
 	rng := rand.New(rand.NewSource(seed))
 	p := pkBuildPools(rng, n)
 	bechDone := map[string]bool{}
+	fs := pkFuncs()
+	km := newKeyMon(fs, p)
+	fidx := map[*pkFunc]int{}
+	for fi := range fs {
+		fidx[&fs[fi]] = fi
+	}
 
 	emit := func(f *pkFunc, args []pkArg) {
 		for _, a := range args {
@@ -371,13 +391,14 @@ func runPureKeys(out *bufio.Writer, seed int64, n int) (cases int) {
 			sb.WriteString(a.String())
 		}
 		sb.WriteString(" = ")
-		sb.WriteString(f.call(args))
+		r := f.call(args)
+		sb.WriteString(r)
 		sb.WriteByte('\n')
 		out.WriteString(sb.String())
 		cases++
+		km.observe(fidx[f], args, r)
 	}
 
-	fs := pkFuncs()
 	for fi := range fs {
 		f := &fs[fi]
 		pools := make([][]pkArg, len(f.kinds))
@@ -429,6 +450,15 @@ func runPureKeys(out *bufio.Writer, seed int64, n int) (cases int) {
 			}
 			emit(f, args)
 		}
+		// crafted cases (mon_keys.go): boundary shifts, bech32 extensions, prefix-related values with separators
+		before := cases
+		for _, t := range pkCrafted(f, p) {
+			emit(f, t)
+		}
+		for _, t := range pkCraftedSubs(km, fi, p) {
+			emit(f, t)
+		}
+		km.sum.CraftedCases += cases - before
 	}
-	return cases
+	return cases, km.finish()
 }
